@@ -425,7 +425,55 @@ class Body:
                     if src is not None and src in mutref:
                         mutref[l] = mutref[src]
                         changed = True
-        # a `&mut _x` whose base is itself a reference deref (`&mut (*_1).f`) also mutates _1's pointee
+        # a `&mut` obtained *through* a mutable borrow (deref_mut / index_mut / get_mut / as_mut ...)
+        # still points into the same base: calls receiving it mutate the base as well
+        reborrow = ("DerefMut::deref_mut", "AsMut::as_mut", "IndexMut::index_mut", "Option::as_mut", "Vec::as_mut_slice",
+                    "HashMap::get_mut", "<impl [T]>::get_mut", "<impl [T]>::iter_mut", "Vec::iter_mut", "Pin::as_mut",
+                    "Pin::get_mut", "Pin::get_unchecked_mut", "BorrowMut::borrow_mut", "<impl [T]>::last_mut", "<impl [T]>::first_mut",
+                    "OccupiedEntry::get_mut", "OccupiedEntry::into_mut", "Entry::or_default", "Entry::or_insert", "Entry::or_insert_with", "HashMap::entry")
+        changed = True
+        rounds = 0
+        while changed and rounds < 6:
+            changed = False
+            rounds += 1
+            for b in range(self.n):
+                if self.blocks[b]["cl"]:
+                    continue
+                t = self.blocks[b]["t"]
+                if t["k"] != "call" or "f" not in t or not t["args"] or t["dest"].get("p"):
+                    continue
+                if std_tail(t["f"]) not in reborrow:
+                    continue
+                pl = t["args"][0].get("mv") or t["args"][0].get("cp")
+                if pl and not norm_proj(pl.get("p")) and pl["l"] in mutref and t["dest"]["l"] not in mutref:
+                    mutref[t["dest"]["l"]] = mutref[pl["l"]]
+                    changed = True
+            for l, ds in list(d.items()):
+                if l in mutref:
+                    continue
+                for df in ds:
+                    if df[0] != "assign" or df[3]:
+                        continue
+                    r = df[4]
+                    src = None
+                    if r["k"] == "use":
+                        pl = r["a"].get("mv") or r["a"].get("cp")
+                        if pl and not norm_proj(pl.get("p")):
+                            src = pl["l"]
+                    elif r["k"] == "ref" and r.get("mut") and r["p"].get("p") == ["*"]:
+                        src = r["p"]["l"]
+                    if src is not None and src in mutref:
+                        mutref[l] = mutref[src]
+                        changed = True
+        # resolve chains: `&mut *p` where p itself is a mutable borrow of x points into x
+        for l in list(mutref):
+            base, proj, via_deref = mutref[l]
+            hops = 0
+            while via_deref and base in mutref and hops < 6:
+                nb, np_, nd = mutref[base]
+                base, proj, via_deref = nb, np_ + proj, nd
+                hops += 1
+            mutref[l] = (base, proj, via_deref)
         self.mutref = mutref
         mc = defaultdict(list)
         for b in range(self.n):
